@@ -9,6 +9,7 @@ import CCT.Model.CliEdit
 import CCT.Model.Reasons
 import CCT.Ref.Crypto
 import Std.Data.HashMap
+import CCT.Model.IntLimit
 /-!
 # Driver — line protocol between the Python harness and the executable model
 
@@ -300,7 +301,7 @@ def handle (memo : Memo) (line : String) : Memo × String :=
           | some (t, r3) => match parseVal r3 with
             | some (g, []) =>
               let memo' := match e with | .j ej => warm memo ej (gpgOf g) | _ => memo
-              (memo', showRes (verifySignable (memoCrypto memo') e k t g))
+              (memo', showRes (verifySignablePy (memoCrypto memo') e k t g))
             | _ => (memo, "X bad-args")
           | _ => (memo, "X bad-args")
         | _ => (memo, "X bad-args")
@@ -330,7 +331,7 @@ def handle (memo : Memo) (line : String) : Memo × String :=
           | some (t, r3) => match parseVal r3 with
             | some (g, []) =>
               let memo' := match u with | .j uj => warm memo uj (gpgOf g) | _ => memo
-              (memo', showRes (verifyDelegation (memoCrypto memo') n u t g))
+              (memo', showRes (verifyDelegationPy (memoCrypto memo') n u t g))
             | _ => (memo, "X bad-args")
           | _ => (memo, "X bad-args")
         | _ => (memo, "X bad-args")
@@ -370,7 +371,7 @@ def handle (memo : Memo) (line : String) : Memo × String :=
       | some (t, r1) => match parseVal r1 with
         | some (u, []) =>
           let memo' := match u with | .j uj => warm memo uj true | _ => memo
-          (memo', showRes (verifyRoot (memoCrypto memo') t u))
+          (memo', showRes (verifyRootPy (memoCrypto memo') t u))
         | _ => (memo, "X bad-args")
       | _ => (memo, "X bad-args")
     | "chain" =>
@@ -394,7 +395,7 @@ def handle (memo : Memo) (line : String) : Memo × String :=
     | "sign" =>
       match parseVal args with
       | some (e, r1) => match parseVal r1 with
-        | some (k, []) => (memo, showResJ (signSignable C e k))
+        | some (k, []) => (memo, showResJ (signSignablePy C e k))
         | _ => (memo, "X bad-args")
       | _ => (memo, "X bad-args")
     | "signrepo" =>
